@@ -1,3 +1,4 @@
+import ErgoVerif.Common
 import ErgoVerif.Model.Event
 import ErgoVerif.Generated.Event
 /-!
@@ -396,6 +397,40 @@ theorem C18_remote_frame_per_subscriber_duplicates : ¬ C18_remote_full false tr
   have := h 0 [(1, 5), (1, 6)] (1, 5) (by simp)
   revert this
   decide
+
+/-- the code as it is: subscribe inserts the relation before it reads the buffer (regenerated) -/
+abbrev ab : Bool := Gen.Event.subscribeAddsBeforeSnapshot
+
+/-- the statement, parametric in the code shape: once the subscription and the publication have both run to their
+end, in whatever interleaving, the subscriber has the publication — from the buffer it was handed or from the fan-out -/
+def C18_subscribe_no_gap_full (b : Bool) : Prop :=
+  ∀ (ls : List SubRace.Lbl) (s : SubRace.S), run (SubRace.step b) SubRace.S.init ls = some s →
+    s.snapped = true → s.added = true → s.fanned = true → (s.replay = true ∨ s.live = true)
+
+theorem subrace_inv (ls : List SubRace.Lbl) (s : SubRace.S) (h : run (SubRace.step true) SubRace.S.init ls = some s) :
+    (s.fanned = true → s.pushed = true) ∧ (s.snapped = true → s.added = true) ∧
+    (s.fanned = true → s.snapped = true → (s.replay = true ∨ s.live = true)) := by
+  refine _root_.ErgoVerif.run_inv (Inv := fun s : SubRace.S => (s.fanned = true → s.pushed = true) ∧ (s.snapped = true → s.added = true) ∧
+    (s.fanned = true → s.snapped = true → (s.replay = true ∨ s.live = true))) ?_ (by simp [SubRace.S.init]) h
+  intro s l s' hi hs
+  rcases s with ⟨a, sn, p, f, r, lv⟩
+  cases a <;> cases sn <;> cases p <;> cases f <;> cases r <;> cases lv <;> cases l <;>
+    simp [SubRace.step] at hs <;> (try subst hs) <;> simp_all
+
+/-- **No gap between replay and live delivery, for the code as it is**: a publication that races with a subscription
+is never lost to the subscriber — for every interleaving of {insert relation, read buffer} with {push, fan out}. -/
+theorem C18_subscribe_no_gap : C18_subscribe_no_gap_full ab := by
+  have h : ab = true := by decide
+  rw [h]
+  intro ls s hr hsn _ hf
+  exact (subrace_inv ls s hr).2.2 hf hsn
+
+/-- reading the buffer before inserting the relation (seeded change C18-1) loses the publication that is pushed and
+fanned out in between -/
+theorem C18_subscribe_snapshot_first_loses : ¬ C18_subscribe_no_gap_full false := by
+  intro h
+  have := h [.sSnap, .pPush, .pFan, .sAdd] ⟨true, true, true, true, false, false⟩ (by decide) rfl rfl rfl
+  simp at this
 
 /-- non-vacuity: a history with two subscribers, a buffer of 2 and four publications -/
 example :
